@@ -123,6 +123,18 @@ class World:
                 return False
             os.unlink(p)
             mgr._on_deleted(p)
+        elif kind in ('place_q', 'evict_q'):
+            # the event manager changes the cache while the manager is not running (no handler is called)
+            p = os.path.join(env.cache_dir, e[1])
+            if kind == 'evict_q':
+                if not os.path.exists(p):
+                    return False
+                os.unlink(p)
+            else:
+                if os.path.exists(p):
+                    return False
+                with open(p, 'w') as f:
+                    f.write('manifest')
         elif kind == 'finish':
             run = os.path.join(env.running_dir, e[1])
             if not os.path.islink(run):
@@ -189,6 +201,13 @@ def rand_case(rng):
     for _ in range(rng.randint(2, 9)):
         k = rng.random()
         x = rng.choice(INSTANCES[:2] if rng.random() < 0.8 else INSTANCES)
+        if rng.random() < 0.08:
+            # an instance evicted and placed again (a new generation) while the manager is inactive or down
+            if rng.random() < 0.5:
+                evs += [['unready'], ['evict', x], ['place', x], ['ready']]
+            else:
+                evs += [['evict_q', x], ['place_q', x], ['restart']]
+            continue
         if k < 0.3:
             evs.append(['place', x])
         elif k < 0.5:
